@@ -67,11 +67,14 @@ impl Property for C14 {
         let n = ctx.tier.pick(4_000_000, 40_000_000);
         run_tape_batches(self, ctx, "tiers", n, 400, &|t| {
             let prof_w = if t.chance(3, 10) { WordProfile::RICH } else { WordProfile::PLAIN };
-            let word = gen_word(t, prof_w).text();
+            let gw = gen_word(t, prof_w);
+            let word = gw.text();
             let Ok(Ok(pw)) = api::parse_word(&word) else { return None };
             let segs = word_segs(&pw);
             let (r, class) = if t.chance(1, 2) { seg_only_rule(t, segs) } else { prosody_rule(t, segs) };
-            Some(json!({"rule": rule_text(&r), "word": word, "class": class}))
+            // the stress and tone of every syllable as the word was typed (the generator's own record, independent of asca's word reader)
+            let typed: Vec<(u8, u16)> = gw.sylls.iter().map(|s| (s.stress, s.tone)).collect();
+            Some(json!({"rule": rule_text(&r), "word": word, "class": class, "typed_prosody": typed}))
         });
     }
     fn check(&self, case: &Value) -> Outcome {
@@ -88,6 +91,12 @@ impl Property for C14 {
                     let pros = |w: &MWord| w.sylls.iter().map(|s| (s.stress, s.tone)).collect::<Vec<_>>();
                     if g.sylls.len() != mw.sylls.len() { return Outcome::fail(format!("{class}: number of syllables changed"), detail()) }
                     if pros(&g) != pros(&mw) { return Outcome::fail(format!("{class}: stress or tone changed"), detail()) }
+                    // … also against the word as it was typed (a stress mark or tone that the reader drops is a change of the prosodic tier all the same)
+                    if let Some(tp) = case["typed_prosody"].as_array() {
+                        let typed: Vec<(u8, u16)> = tp.iter().map(|x| (x[0].as_u64().unwrap_or(0) as u8, x[1].as_u64().unwrap_or(0) as u16)).collect();
+                        let norm = |v: Vec<(u8, u16)>| v.into_iter().map(|(st, tn)| (st, tn.to_string().replace('0', "").parse::<u16>().unwrap_or(0))).collect::<Vec<_>>();
+                        if norm(pros(&g)) != norm(typed) { return Outcome::fail(format!("{class}: stress or tone of the result differ from the word as typed"), detail()) }
+                    }
                     let no_runs = |w: &MWord| w.sylls.iter().all(|s| s.segs.windows(2).all(|p| p[0] != p[1]));
                     if class.ends_with("matrices") && no_runs(&mw) && no_runs(&g) && g.prosody() != mw.prosody() { return Outcome::fail(format!("{class}: segments moved across a boundary"), detail()) }
                 } else if g.flat() != mw.flat() { return Outcome::fail(format!("{class}: segments changed"), detail()) }
